@@ -496,6 +496,8 @@ def validate_prior_parameters(
     for param_name, param in params:
         if attempt_array_conversion(param):
             param = atleast_1d(param).astype(float)
+        elif isinstance(param, ndarray):
+            param = param.astype(float)
 
         if not isinstance(param, ndarray):
             raise TypeError(
